@@ -144,17 +144,26 @@ theorem grouped_tpm_ragged_error (un : Bool) (rt : Nat) (rows : List (String × 
 
 /-! ### non-vacuity -/
 
-/-- two groups, the second without counts; a comment row is skipped, the table ends at the statistics line -/
-example : groupedTpm false 0 [("g1", [100, 0]), ("#c", [5, 5]), ("g2", [300, 0]), ("__ambiguous", [7, 7]), ("g3", [1, 1])] =
-    .ok [("g1", [250000, 0]), ("g2", [750000, 0])] := by decide +kernel
+/-- two groups, the second with counts of the feature `#c` only (an id may start with `#`: a row like any other since
+    the repair `fix_tpm_header`); the table ends at the statistics line -/
+example : groupedTpm false 0 [("g1", [100, 0]), ("#c", [100, 5]), ("g2", [300, 0]), ("__ambiguous", [7, 7]), ("g3", [1, 1])] =
+    .ok [("g1", [200000, 0]), ("#c", [200000, 1000000]), ("g2", [600000, 0])] := by decide +kernel
 
-example : Rect 2 [("g1", [100, 0]), ("#c", [5, 5]), ("g2", [300, 0]), ("__ambiguous", [7, 7]), ("g3", [1])] := by
+example : Rect 2 [("g1", [100, 0]), ("#c", [100, 5]), ("g2", [300, 0]), ("__ambiguous", [7, 7]), ("g3", [1])] := by
   intro r hr
-  have : tpmInputRowsG [("g1", [100, 0]), ("#c", [5, 5]), ("g2", [300, 0]), ("__ambiguous", [7, 7]), ("g3", [1])] =
-      [("g1", [100, 0]), ("g2", [300, 0])] := by decide +kernel
+  have : tpmInputRowsG [("g1", [100, 0]), ("#c", [100, 5]), ("g2", [300, 0]), ("__ambiguous", [7, 7]), ("g3", [1])] =
+      [("g1", [100, 0]), ("#c", [100, 5]), ("g2", [300, 0])] := by decide +kernel
   rw [this] at hr
   simp at hr
-  rcases hr with rfl | rfl <;> rfl
+  rcases hr with rfl | rfl | rfl <;> rfl
+
+/-- **grouped_tpm_hash_witness**: the rows the unrepaired reader looked at lack the feature `#c` (its counts were in no
+    column total and it had no TPM row) -/
+theorem grouped_tpm_hash_witness :
+    tpmInputRowsGOrig [("g1", [100, 0]), ("#c", [100, 5]), ("g2", [300, 0]), ("__ambiguous", [7, 7])]
+      = [("g1", [100, 0]), ("g2", [300, 0])] ∧
+    tpmInputRowsG [("g1", [100, 0]), ("#c", [100, 5]), ("g2", [300, 0]), ("__ambiguous", [7, 7])]
+      = [("g1", [100, 0]), ("#c", [100, 5]), ("g2", [300, 0])] := by decide +kernel
 
 example : 0 < colTotal 0 [("g1", [100, 0]), ("g2", [300, 0])] := by decide +kernel
 
